@@ -65,6 +65,15 @@ RawSame(v, out) ==
                            OHas(out, v.v[i][1]) /\ RawSame(v.v[i][2], OGet(out, v.v[i][1]))
     [] OTHER -> out.k = v.k /\ JSame(v, out)
 
+(* defaults a property's element may carry: declared on the schema itself or on a member of *)
+(* its anyOf/oneOf/allOf (the parser collapses single-member compositions onto the member)  *)
+RECURSIVE DefaultsWithin(_)
+DefaultsWithin(S) ==
+  IF IsBoolSchema(S) THEN {}
+  ELSE (IF Has(S, "default") THEN {S.default} ELSE {})
+       \cup UNION {UNION {DefaultsWithin(S[kw][i]) : i \in 1..Len(S[kw])} :
+                     kw \in {k \in {"anyOf", "oneOf", "allOf"} : Has(S, k)}}
+
 RECURSIVE R4(_, _, _)
 RECURSIVE R4base(_, _, _)
 RECURSIVE R4any(_, _, _)
@@ -119,9 +128,9 @@ R4base(S, v, out) ==
                      /\ out.v[j][1] = PyName(props[p][1])
                      /\ ~HasKey(v, props[p][1])
                      /\ \/ out.v[j][2].k = "np"
-                        \/ /\ ~IsBoolSchema(props[p][2]) /\ Has(props[p][2], "default")
-                           /\ \/ RawSame(props[p][2].default, out.v[j][2])
-                              \/ R4(props[p][2], props[p][2].default, out.v[j][2])
+                        \/ \E d \in DefaultsWithin(props[p][2]) :
+                              \/ RawSame(d, out.v[j][2])
+                              \/ R4(props[p][2], d, out.v[j][2])
     [] v.k = "num" ->
          \/ out.k = "num" /\ JSame(v, out)
          \/ /\ out.k = "num" /\ ~v.f /\ out.f /\ NumEq(v, out)      \* int -> equal float
